@@ -26,6 +26,7 @@ use crate::{
 };
 use bls12_381_plus::{multi_miller_loop, G1Projective, G2Prepared, G2Projective, Gt, Scalar};
 use elliptic_curve::{group::Curve, hash2curve::ExpandMsg};
+use ff::Field;
 use serde::{Deserialize, Serialize};
 
 #[derive(Clone, PartialEq, Eq, Debug, Serialize, Deserialize)]
@@ -69,6 +70,11 @@ impl BBSplusSignature {
             .map_err(|_| Error::InvalidSignature)?;
         let e = Scalar::from_bytes_be(&data[G1Projective::COMPRESSED_BYTES..Self::BYTES])
             .map_err(|_| Error::InvalidSignature)?;
+
+        // octets_to_signature: A must not be the identity and e must not be zero
+        if bool::from(A.is_identity()) || bool::from(e.is_zero()) {
+            return Err(Error::InvalidSignature);
+        }
 
         Ok(Self { A, e })
     }
